@@ -252,6 +252,22 @@ def c05_5(ctx, R="C05.5"):
         oks = [(f, ver) for rc, f, ver in paths if rc == "Ok"]
         unverified = [f for f, ver in oks if not ver]
         ok1 = len(unverified) == 1 and (DONT, True) in unverified[0]
+        # both verifiers receive the complete multiset of collected pairs: state.pkm_pairs.iter().map(pair -> (pk, msg bytes)),
+        # with no dedup / filter / sort / take in between (every repetition of an AGG_SIG condition needs its own signature)
+        pairs_ok = True
+        seen_ = []
+        for bi, n, t in b.calls():
+            if "aggregate_verify" in U.flat(n).split("::")[-1]:
+                args = [str(apnf.N(strip_all(b.operand_term(a)))) for a in t["args"]]
+                data = [a for a in args if "pkm_pairs" in a]
+                seen_.append(data)
+                if len(data) != 1 or not (data[0].startswith("('Iterator::map', ('iter', ('.pkm_pairs', 'state')), ('closure', ") and data[0].count("(") == 4):
+                    pairs_ok = False
+                if not data:
+                    pairs_ok = False
+        ctx.ob(R, "all-pairs-verified", pairs_ok and len(seen_) == 2,
+               "with and without a cache the verifier receives state.pkm_pairs.iter().map(..) unmodified (the full multiset, in either branch)",
+               found=seen_)
         ctx.ob(R, "skip-only-when-flagged", ok1, "validate_signature returns Ok without verifying only under DONT_VALIDATE_SIGNATURE",
                found=[sorted(map(str, f)) for f in unverified])
         ver_ok = [f for f, ver in oks if ver]
